@@ -120,7 +120,10 @@ def _dispatch_polling(fl, ah, pending, spec):
             if post.exc is not None:
                 return fail(PROP, 'POST-EXCEPTION', '%s escaped handle_request for body %r' % (type(post.exc).__name__, body), **st)
             want = 400 if ending == 'error' else 200
-            if sut.status(post) != want:
+            trailing = ending == 'close' and len(prefix) + pongs + ups + 1 < len(spec)
+            # packets that follow a CLOSE inside the same body are not constrained by the statement, and neither is
+            # the status of a body that has such packets (the server may refuse them as sent to a closed session)
+            if sut.status(post) != want and not (trailing and sut.status(post) in (200, 400)):
                 return fail(PROP, 'POST-STATUS', 'body %r answered %r, expected %d' % (body, sut.status(post), want), **st)
         disc = [o for o in others if o[0] == 'disconnect']
         if ending is None:
@@ -182,24 +185,31 @@ def _ok_type_payload(t, k):
     return (t == 4 and 0 <= k <= len(PAY)) or (t != 4 and k == 0)
 
 
-@cond(quick=dict(timeout=170, parts=dict(FL=[0, 1], AH=[0, 1])), thorough=dict(timeout=900, parts=dict(FL=[0, 1], AH=[0, 1])))
-def polling_two(fl: int, ah: int, pending: bool, n: int, t0: int, k0: int, t1: int, k1: int) -> str:
+_T3 = (4, 1, 7, 3, 5, 0)
+_T1 = (4, 1, 7, 3, 5, 0, 2, 6, 8, 9)
+
+
+@cond(quick=dict(timeout=170, T=6, K=0, parts=dict(FL=[0, 1], AH=[0, 1])),
+      thorough=dict(timeout=1200, T=10, K=8, parts=dict(FL=[0, 1], AH=[0, 1], PEND=[0, 1])))
+def polling_two(fl: int, ah: int, pending: bool, n: int, t0: int, k0: int, b: int, k1: int) -> str:
     """
-    pre: fl == P.FL and ah == P.AH and 0 <= n <= 2 and 0 <= t0 <= 9 and 0 <= t1 <= 9
-    pre: ((t0 == 4 and 0 <= k0 <= len(PAY)) or (t0 != 4 and k0 == 0)) and ((t1 == 4 and 0 <= k1 <= len(PAY)) or (t1 != 4 and k1 == 0))
+    pre: fl == P.FL and ah == P.AH and 0 <= n <= 2 and 0 <= t0 <= 9 and 0 <= b < P.T and 0 <= k1 <= P.K
+    pre: ((t0 == 4 and 0 <= k0 <= len(PAY)) or (t0 != 4 and k0 == 0)) and (_T1[b] == 4 or k1 == 0)
+    pre: not hasattr(P, 'PEND') or pending == bool(P.PEND)
     post: _ == ''
     """
-    spec = [(t0, k0), (t1, k1)][:n]
+    # first packet: any type 0-9 with any table payload (text, JSON, integer-looking, empty, binary); second packet
+    # from the type table (quick: MESSAGE, CLOSE, 7, PONG, UPGRADE, OPEN; thorough: all ten types with payloads)
+    spec = [(t0, k0), (_T1[b], k1)][:n]
     return verdict(_dispatch_polling(fl, bool(ah), pending, spec))
 
 
-_T3 = (4, 1, 7, 3, 5, 0)
-
-
-@cond(quick=dict(timeout=170, T=4, parts=dict(FL=[0, 1])), thorough=dict(timeout=900, T=6, parts=dict(FL=[0, 1], AH=[0, 1])))
+@cond(quick=dict(timeout=170, T=4, K=0, parts=dict(FL=[0, 1], AH=[0, 1])),
+      thorough=dict(timeout=1200, T=6, K=2, parts=dict(FL=[0, 1], AH=[0, 1], PEND=[0, 1])))
 def polling_three(fl: int, ah: int, pending: bool, a: int, b: int, c: int, k: int) -> str:
     """
-    pre: fl == P.FL and 0 <= ah <= 1 and 0 <= a < P.T and 0 <= b < P.T and 0 <= c < P.T and 0 <= k <= 2
+    pre: fl == P.FL and ah == P.AH and 0 <= a < P.T and 0 <= b < P.T and 0 <= c < P.T and 0 <= k <= P.K
+    pre: not hasattr(P, 'PEND') or pending == bool(P.PEND)
     post: _ == ''
     """
     # every position of a CLOSE / undefined-type / PONG / UPGRADE packet inside a 3-packet body
@@ -284,14 +294,15 @@ def _dispatch_ws(fl, ah, upgraded, frames_spec):
         sut.close()
 
 
-@cond(quick=dict(timeout=170, parts=dict(FL=[0, 1])), thorough=dict(timeout=900, parts=dict(FL=[0, 1], AH=[0, 1])))
-def websocket_frames(fl: int, ah: int, upgraded: bool, n: int, t0: int, k0: int, t1: int, k1: int) -> str:
+@cond(quick=dict(timeout=170, T=4, parts=dict(FL=[0, 1], AH=[0, 1])), thorough=dict(timeout=900, T=6, parts=dict(FL=[0, 1], AH=[0, 1])))
+def websocket_frames(fl: int, ah: int, upgraded: bool, n: int, t0: int, k0: int, b: int) -> str:
     """
-    pre: fl == P.FL and 0 <= ah <= 1 and 1 <= n <= 2 and 0 <= t0 <= 9 and 0 <= t1 <= 9
-    pre: ((t0 == 4 and 0 <= k0 <= len(PAY)) or (t0 != 4 and k0 == 0)) and ((t1 == 4 and 0 <= k1 <= 2) or (t1 != 4 and k1 == 0))
+    pre: fl == P.FL and ah == P.AH and 1 <= n <= 2 and 0 <= t0 <= 9 and 0 <= b < P.T
+    pre: ((t0 == 4 and 0 <= k0 <= len(PAY)) or (t0 != 4 and k0 == 0))
     post: _ == ''
     """
-    return verdict(_dispatch_ws(fl, bool(ah), upgraded, [(t0, k0), (t1, k1)][:n]))
+    # first frame: any type 0-9 / any table payload (text, JSON, binary frame); second frame from the type table
+    return verdict(_dispatch_ws(fl, bool(ah), upgraded, [(t0, k0), (_T3[b], 0)][:n]))
 
 
 def _refused(fl, kind, n, lim):
